@@ -1,8 +1,324 @@
 ------------------------------ MODULE HtmlState ------------------------------
-\* C17: HTML state pseudo-classes. s = [k |-> "checked"|"default"|"indeterminate"|"enabled"|"disabled"|"required"|"optional"|"read-write"|"read-only"|"placeholder-shown"|"link"|"any-link"|"defined"] or [k |-> "dir", d |-> "ltr"|"rtl"]
-\* STUB - to be filled in.  Every operator other than the entry point must carry a module-specific
-\* prefix, because CssDecl EXTENDS this module together with its siblings (shared name space).
+\* C17 (R stratum): the HTML state pseudo-classes, written as the property text and the HTML
+\* standard (form controls, selectors of the "Pseudo-classes" section, the dir attribute) define
+\* them.  Nothing here follows the shape of the implementation: no scan order, no memo tables.
+\*
+\*   s = [k |-> "checked"|"default"|"indeterminate"|"enabled"|"disabled"|"required"|"optional"|
+\*             "read-write"|"read-only"|"placeholder-shown"|"link"|"any-link"|"defined"]
+\*    or [k |-> "dir", d |-> "ltr"|"rtl"]
+\*
+\* Common frame.  Every pseudo-class below holds only for elements in the HTML namespace
+\* (Dom!IsHtmlEl) of HTML or XHTML documents (Dom!IsHtml); :defined is the one exception as far as
+\* the namespace of the element goes.  Attribute names are looked up case-insensitively
+\* (Dom!AttrValSetCI); the keywords of the enumerated attributes type, dir and contenteditable are
+\* compared ASCII-case-insensitively.
+\*
+\* Own document.  In HTML the content of an iframe element is a document of its own.  Whatever a
+\* definition says about "the form owner", "the group", "the ancestors", "the parent" is read inside
+\* the element's own document: the walk towards the root stops below the nearest iframe (HsAnc,
+\* HsHost).  The children of an iframe are the top of that inner document.
+\*
+\* Every operator other than StateHolds is prefixed Hs: CssDecl EXTENDS this module together with its
+\* siblings (shared name space).
 EXTENDS Integers, Sequences, FiniteSets, Str, Dom
 
-StateHolds(d, s, i) == FALSE
+\* ---- vocabulary (code points) -------------------------------------------------------------
+HsNForm == <<102,111,114,109>>
+HsNFieldset == <<102,105,101,108,100,115,101,116>>
+HsNLegend == <<108,101,103,101,110,100>>
+HsNInput == <<105,110,112,117,116>>
+HsNButton == <<98,117,116,116,111,110>>
+HsNSelect == <<115,101,108,101,99,116>>
+HsNOptgroup == <<111,112,116,103,114,111,117,112>>
+HsNOption == <<111,112,116,105,111,110>>
+HsNTextarea == <<116,101,120,116,97,114,101,97>>
+HsNProgress == <<112,114,111,103,114,101,115,115>>
+HsNA == <<97>>
+HsNArea == <<97,114,101,97>>
+HsNBdi == <<98,100,105>>
+HsNScript == <<115,99,114,105,112,116>>
+HsNStyle == <<115,116,121,108,101>>
+HsNIframe == <<105,102,114,97,109,101>>
+HsNDiv == <<100,105,118>>
+HsAType == <<116,121,112,101>>
+HsAName == <<110,97,109,101>>
+HsAChecked == <<99,104,101,99,107,101,100>>
+HsASelected == <<115,101,108,101,99,116,101,100>>
+HsADisabled == <<100,105,115,97,98,108,101,100>>
+HsAReadonly == <<114,101,97,100,111,110,108,121>>
+HsARequired == <<114,101,113,117,105,114,101,100>>
+HsAIndeterminate == <<105,110,100,101,116,101,114,109,105,110,97,116,101>>
+HsAPlaceholder == <<112,108,97,99,101,104,111,108,100,101,114>>
+HsAValue == <<118,97,108,117,101>>
+HsAContenteditable == <<99,111,110,116,101,110,116,101,100,105,116,97,98,108,101>>
+HsADir == <<100,105,114>>
+HsAHref == <<104,114,101,102>>
+HsVCheckbox == <<99,104,101,99,107,98,111,120>>
+HsVRadio == <<114,97,100,105,111>>
+HsVSubmit == <<115,117,98,109,105,116>>
+HsVHidden == <<104,105,100,100,101,110>>
+HsVText == <<116,101,120,116>>
+HsVSearch == <<115,101,97,114,99,104>>
+HsVUrl == <<117,114,108>>
+HsVTel == <<116,101,108>>
+HsVEmail == <<101,109,97,105,108>>
+HsVPassword == <<112,97,115,115,119,111,114,100>>
+HsVNumber == <<110,117,109,98,101,114>>
+HsVDate == <<100,97,116,101>>
+HsVDatetimeLocal == <<100,97,116,101,116,105,109,101,45,108,111,99,97,108>>
+HsVMonth == <<109,111,110,116,104>>
+HsVTime == <<116,105,109,101>>
+HsVWeek == <<119,101,101,107>>
+HsVTrue == <<116,114,117,101>>
+HsVLtr == <<108,116,114>>
+HsVRtl == <<114,116,108>>
+HsVAuto == <<97,117,116,111>>
+
+\* ---- elements and attributes -----------------------------------------------------------------
+\* i is the HTML element called nm
+HsIs(d, i, nm) == IsEl(d, i) /\ IsHtmlEl(d, i) /\ NameKey(d, d.name[i]) = nm
+HsIsAny(d, i, nms) == IsEl(d, i) /\ IsHtmlEl(d, i) /\ NameKey(d, d.name[i]) \in nms
+
+HsHas(d, i, a) == AttrValSetCI(d, i, a) # {}
+\* value of a content attribute, the empty string when it is absent
+HsVal(d, i, a) == IF HsHas(d, i, a) THEN CHOOSE v \in AttrValSetCI(d, i, a) : TRUE ELSE <<>>
+\* keyword of an enumerated attribute
+HsKw(d, i, a) == Lower(HsVal(d, i, a))
+
+\* ---- the element's own document ---------------------------------------------------------------
+\* ancestors inside the own document: the walk stops below an iframe
+RECURSIVE HsAnc(_, _)
+HsAnc(d, i) == LET p == d.parent[i] IN
+               IF p = 0 \/ IsIframe(d, p) THEN {} ELSE {p} \cup HsAnc(d, p)
+\* the iframe whose content document node i lives in; 0 for the outermost document
+RECURSIVE HsHost(_, _)
+HsHost(d, i) == LET p == d.parent[i] IN
+                IF p = 0 THEN 0 ELSE IF IsIframe(d, p) THEN p ELSE HsHost(d, p)
+\* i is the top of its document: it has no parent element there
+HsIsDocTop(d, i) == d.parent[i] = 0 \/ IsIframe(d, d.parent[i])
+
+\* form owner: the nearest form ancestor (ids grow towards the descendant), 0 when there is none
+HsFormAnc(d, i) == {f \in HsAnc(d, i) : HsIs(d, f, HsNForm)}
+HsFormOwner(d, i) == IF HsFormAnc(d, i) = {} THEN 0 ELSE Max(HsFormAnc(d, i))
+
+\* ---- :checked, :default -----------------------------------------------------------------------
+HsIsInputOf(d, i, types) == HsIs(d, i, HsNInput) /\ HsHas(d, i, HsAType) /\ HsKw(d, i, HsAType) \in types
+HsChecked(d, i) ==
+    \/ HsIsInputOf(d, i, {HsVCheckbox, HsVRadio}) /\ HsHas(d, i, HsAChecked)
+    \/ HsIs(d, i, HsNOption) /\ HsHas(d, i, HsASelected)
+
+\* "button or input of type submit"
+HsIsSubmit(d, i) == HsIsAny(d, i, {HsNInput, HsNButton}) /\ HsHas(d, i, HsAType) /\ HsKw(d, i, HsAType) = HsVSubmit
+\* the submit buttons whose form owner is f, and the default button of f: the first in tree order
+HsSubmitsOf(d, f) == {j \in Elems(d) : HsIsSubmit(d, j) /\ HsFormOwner(d, j) = f}
+HsDefaultButton(d, i) ==
+    /\ HsIsSubmit(d, i)
+    /\ HsFormOwner(d, i) # 0
+    /\ i = Min(HsSubmitsOf(d, HsFormOwner(d, i)))
+HsDefault(d, i) == HsChecked(d, i) \/ HsDefaultButton(d, i)
+
+\* The literal reading of "the first submit button in each form": first among all the descendants
+\* of a form in its document, nested forms included.  T-Default below states where the two readings
+\* coincide (everywhere except under nested forms).  A selector record [k |-> "default", alt |-> TRUE]
+\* asks for this reading; conformance checks use it only to label a disagreement, never to gate.
+HsSubmitsIn(d, f) == {j \in Elems(d) : HsIsSubmit(d, j) /\ f \in HsAnc(d, j)}
+HsDefaultButtonLit(d, i) ==
+    HsIsSubmit(d, i) /\ \E f \in HsFormAnc(d, i) : i = Min(HsSubmitsIn(d, f))
+HsNestedForms(d) == \E f \in Elems(d) : HsIs(d, f, HsNForm) /\ HsFormAnc(d, f) # {}
+HsDefaultLit(d, i) == HsChecked(d, i) \/ HsDefaultButtonLit(d, i)
+HsAlt(s) == "alt" \in DOMAIN s /\ s.alt
+
+\* ---- :indeterminate ---------------------------------------------------------------------------
+HsIsRadio(d, i) == HsIsInputOf(d, i, {HsVRadio})
+\* radio button group: same tree (own document), same form owner (possibly none), same non-empty name
+HsRadioGroup(d, i) ==
+    {j \in Elems(d) : /\ HsIsRadio(d, j)
+                      /\ HsHost(d, j) = HsHost(d, i)
+                      /\ HsFormOwner(d, j) = HsFormOwner(d, i)
+                      /\ HsVal(d, j, HsAName) = HsVal(d, i, HsAName)}
+HsIndeterminate(d, i) ==
+    \/ HsIsInputOf(d, i, {HsVCheckbox}) /\ HsHas(d, i, HsAIndeterminate)
+    \/ HsIs(d, i, HsNProgress) /\ ~HsHas(d, i, HsAValue)
+    \/ /\ HsIsRadio(d, i) /\ ~HsHas(d, i, HsAChecked)
+       /\ \/ HsVal(d, i, HsAName) = <<>>                      \* no name, or the empty name: a group of its own
+          \/ \A j \in HsRadioGroup(d, i) : ~HsHas(d, j, HsAChecked)
+
+\* ---- :placeholder-shown -----------------------------------------------------------------------
+\* concatenation of the text nodes of a set of nodes in document order
+RECURSIVE HsCat(_, _)
+HsCat(d, S) == IF S = {} THEN <<>> ELSE LET m == Min(S) IN d.text[m] \o HsCat(d, S \ {m})
+HsTextContent(d, i) == HsCat(d, {j \in Desc(d, i) : IsText(d, j)})
+\* input types the placeholder attribute applies to; no type attribute is the Text state
+HsPlaceholderTypes == {<<>>, HsVText, HsVSearch, HsVUrl, HsVTel, HsVEmail, HsVPassword, HsVNumber}
+HsPlaceholderShown(d, i) ==
+    /\ HsHas(d, i, HsAPlaceholder) /\ HsVal(d, i, HsAPlaceholder) # <<>>
+    /\ \/ /\ HsIs(d, i, HsNInput) /\ HsKw(d, i, HsAType) \in HsPlaceholderTypes
+          /\ HsVal(d, i, HsAValue) = <<>>
+          /\ HsTextContent(d, i) \in {<<>>, <<10>>}
+       \/ HsIs(d, i, HsNTextarea) /\ HsTextContent(d, i) \in {<<>>, <<10>>}
+
+\* ---- :enabled, :disabled ----------------------------------------------------------------------
+HsIsControl(d, i) ==
+    \/ HsIs(d, i, HsNInput) /\ HsKw(d, i, HsAType) # HsVHidden
+    \/ HsIsAny(d, i, {HsNButton, HsNSelect, HsNTextarea, HsNFieldset, HsNOptgroup, HsNOption})
+\* controls a disabled fieldset disables
+HsIsFieldsetTarget(d, i) == HsIsControl(d, i) /\ ~HsIsAny(d, i, {HsNOptgroup, HsNOption})
+HsLegends(d, f) == {c \in ElChildren(d, f) : HsIs(d, c, HsNLegend)}
+HsInFirstLegend(d, f, i) == HsLegends(d, f) # {} /\ Min(HsLegends(d, f)) \in HsAnc(d, i)
+HsDisabled(d, i) ==
+    /\ HsIsControl(d, i)
+    /\ \/ HsHas(d, i, HsADisabled)
+       \/ /\ HsIs(d, i, HsNOption) /\ ~HsIsDocTop(d, i)
+          /\ HsIs(d, d.parent[i], HsNOptgroup) /\ HsHas(d, d.parent[i], HsADisabled)
+       \/ /\ HsIsFieldsetTarget(d, i)
+          /\ \E f \in HsAnc(d, i) : /\ HsIs(d, f, HsNFieldset) /\ HsHas(d, f, HsADisabled)
+                                    /\ ~HsInFirstLegend(d, f, i)
+HsEnabled(d, i) == HsIsControl(d, i) /\ ~HsDisabled(d, i)
+
+\* ---- :required, :optional ---------------------------------------------------------------------
+HsCanRequire(d, i) == HsIsAny(d, i, {HsNInput, HsNSelect, HsNTextarea})
+HsRequired(d, i) == HsCanRequire(d, i) /\ HsHas(d, i, HsARequired)
+HsOptional(d, i) == HsCanRequire(d, i) /\ ~HsHas(d, i, HsARequired)
+
+\* ---- :read-write, :read-only ------------------------------------------------------------------
+\* input types the readonly attribute applies to
+HsTextLikeTypes == {<<>>, HsVText, HsVSearch, HsVUrl, HsVTel, HsVEmail, HsVNumber, HsVPassword,
+                    HsVDate, HsVDatetimeLocal, HsVMonth, HsVTime, HsVWeek}
+HsEditingHost(d, i) == HsHas(d, i, HsAContenteditable) /\ HsKw(d, i, HsAContenteditable) \in {<<>>, HsVTrue}
+HsReadWrite(d, i) ==
+    \/ /\ HsIs(d, i, HsNTextarea) \/ (HsIs(d, i, HsNInput) /\ HsKw(d, i, HsAType) \in HsTextLikeTypes)
+       /\ ~HsHas(d, i, HsAReadonly) /\ ~HsDisabled(d, i)
+    \/ HsEditingHost(d, i)
+HsReadOnly(d, i) == ~HsReadWrite(d, i)
+
+\* ---- :link, :any-link -------------------------------------------------------------------------
+HsLink(d, i) == HsIsAny(d, i, {HsNA, HsNArea}) /\ HsHas(d, i, HsAHref)
+
+\* ---- :dir() -----------------------------------------------------------------------------------
+\* Characters are modelled by their bidirectional class over the alphabet ASCII + Hebrew letters +
+\* Arabic letters: strong L (ASCII letters), strong R / AL, everything else neutral or weak.
+HsBidi(c) == IF (c >= 65 /\ c <= 90) \/ (c >= 97 /\ c <= 122) THEN "L"
+             ELSE IF (c >= 1488 /\ c <= 1514) \/ (c >= 1569 /\ c <= 1610) THEN "R" ELSE "N"
+HsStrongAt(s) == {n \in 1..Len(s) : HsBidi(s[n]) # "N"}
+\* direction of the first strong character: "ltr", "rtl", or "none"
+HsFirstStrong(s) == IF HsStrongAt(s) = {} THEN "none"
+                    ELSE IF HsBidi(s[Min(HsStrongAt(s))]) = "L" THEN "ltr" ELSE "rtl"
+
+\* state of the dir attribute
+HsDirState(d, i) == LET v == HsKw(d, i, HsADir) IN
+    IF ~HsHas(d, i, HsADir) THEN "none"
+    ELSE IF v = HsVLtr THEN "ltr" ELSE IF v = HsVRtl THEN "rtl" ELSE IF v = HsVAuto THEN "auto" ELSE "none"
+
+\* elements whose text does not count for an ancestor with dir=auto
+HsBidiCut(d, a) == \/ HsIsAny(d, a, {HsNBdi, HsNScript, HsNStyle, HsNTextarea, HsNIframe})
+                   \/ HsDirState(d, a) # "none"
+HsAutoText(d, i) ==
+    HsCat(d, {j \in Desc(d, i) : IsText(d, j) /\ \A a \in Anc(d, j) : (i \in Anc(d, a)) => ~HsBidiCut(d, a)})
+\* controls whose dir=auto looks at the value: textarea, and input in the Text (also: no or empty
+\* type attribute), Search, Telephone, URL or Email state
+HsAutoFromValue(d, i) == \/ HsIs(d, i, HsNTextarea)
+                         \/ HsIs(d, i, HsNInput) /\ HsKw(d, i, HsAType) \in {<<>>, HsVText, HsVSearch, HsVTel, HsVUrl, HsVEmail}
+HsValueOf(d, i) == IF HsIs(d, i, HsNTextarea) THEN HsCat(d, {j \in Children(d, i) : IsText(d, j)})
+                   ELSE HsVal(d, i, HsAValue)
+
+RECURSIVE HsDir(_, _)
+HsDir(d, i) ==
+    LET st == HsDirState(d, i)
+        inherit == IF HsIsDocTop(d, i) THEN "ltr" ELSE HsDir(d, d.parent[i])
+        val == HsValueOf(d, i)
+    IN IF st \in {"ltr", "rtl"} THEN st
+       ELSE IF st = "auto" /\ HsAutoFromValue(d, i)
+            THEN IF HsFirstStrong(val) # "none" THEN HsFirstStrong(val)
+                 ELSE IF val # <<>> THEN "ltr" ELSE inherit
+       ELSE IF st = "auto" \/ HsIs(d, i, HsNBdi)
+            THEN IF HsFirstStrong(HsAutoText(d, i)) # "none" THEN HsFirstStrong(HsAutoText(d, i)) ELSE inherit
+       ELSE IF HsIsInputOf(d, i, {HsVTel}) THEN "ltr"
+       ELSE inherit
+
+\* ---- :defined ---------------------------------------------------------------------------------
+\* custom element names contain a hyphen; an element that carries a prefix is not an HTML custom
+\* element.  The namespace of the element does not matter.
+HsDefined(d, i) == \/ ~(\E n \in 1..Len(d.name[i]) : d.name[i][n] = 45)
+                   \/ \E n \in 1..Len(d.name[i]) : d.name[i][n] = 58
+                   \/ d.pfx[i] # <<>>
+
+\* ---- entry point used by CssDecl!MatchS -------------------------------------------------------
+HsKinds == {"checked", "default", "indeterminate", "enabled", "disabled", "required", "optional",
+            "read-write", "read-only", "placeholder-shown", "link", "any-link", "dir"}
+StateHolds(d, s, i) ==
+    IF s.k = "defined" THEN IsEl(d, i) /\ IsHtml(d) /\ HsDefined(d, i)
+    ELSE IF s.k \notin HsKinds THEN FALSE
+    ELSE /\ IsEl(d, i) /\ IsHtml(d) /\ IsHtmlEl(d, i)
+         /\ CASE s.k = "checked" -> HsChecked(d, i)
+              [] s.k = "default" -> IF HsAlt(s) THEN HsDefaultLit(d, i) ELSE HsDefault(d, i)
+              [] s.k = "indeterminate" -> HsIndeterminate(d, i)
+              [] s.k = "enabled" -> HsEnabled(d, i)
+              [] s.k = "disabled" -> HsDisabled(d, i)
+              [] s.k = "required" -> HsRequired(d, i)
+              [] s.k = "optional" -> HsOptional(d, i)
+              [] s.k = "read-write" -> HsReadWrite(d, i)
+              [] s.k = "read-only" -> HsReadOnly(d, i)
+              [] s.k = "placeholder-shown" -> HsPlaceholderShown(d, i)
+              [] s.k \in {"link", "any-link"} -> HsLink(d, i)
+              [] s.k = "dir" -> HsDir(d, i) = s.d
+
+\* the set a pseudo-class designates in document d
+HsSet(d, s) == {i \in Elems(d) : StateHolds(d, s, i)}
+HsK(k) == [k |-> k]
+HsDirS(x) == [k |-> "dir", d |-> x]
+HsHtmlElems(d) == {i \in Elems(d) : IsHtml(d) /\ IsHtmlEl(d, i)}
+\* a rooted document: exactly one top-level element
+HsRooted(d) == Cardinality(TopElems(d)) = 1
+
+\* ---- design-level theorems (T-Partitions; INVARIANTs of the MC_C17_* models) ------------------
+\* the partition laws of the property, as statements about the definitions above
+HsThEnabledDisabled(d) ==
+    /\ HsSet(d, HsK("enabled")) \cap HsSet(d, HsK("disabled")) = {}
+    /\ HsSet(d, HsK("enabled")) \cup HsSet(d, HsK("disabled")) = {i \in HsHtmlElems(d) : HsIsControl(d, i)}
+HsThRequiredOptional(d) ==
+    /\ HsSet(d, HsK("required")) \cap HsSet(d, HsK("optional")) = {}
+    /\ HsSet(d, HsK("required")) \cup HsSet(d, HsK("optional")) = {i \in HsHtmlElems(d) : HsCanRequire(d, i)}
+HsThReadWriteOnly(d) ==
+    /\ HsSet(d, HsK("read-write")) \cap HsSet(d, HsK("read-only")) = {}
+    /\ HsSet(d, HsK("read-write")) \cup HsSet(d, HsK("read-only")) = HsHtmlElems(d)
+HsThLink(d) == HsSet(d, HsK("link")) = HsSet(d, HsK("any-link"))
+HsThCheckedDefault(d) == HsSet(d, HsK("checked")) \subseteq HsSet(d, HsK("default"))
+\* :dir is total and single-valued on every HTML element (rooted or not: the model gives every
+\* top of a document the direction ltr)
+HsThDir(d) ==
+    /\ HsSet(d, HsDirS("ltr")) \cap HsSet(d, HsDirS("rtl")) = {}
+    /\ HsSet(d, HsDirS("ltr")) \cup HsSet(d, HsDirS("rtl")) = HsHtmlElems(d)
+HsThPartitions(d) ==
+    /\ HsThEnabledDisabled(d) /\ HsThRequiredOptional(d) /\ HsThReadWriteOnly(d)
+    /\ HsThLink(d) /\ HsThCheckedDefault(d) /\ HsThDir(d)
+
+\* T-Default: a form has at most one default button, it is owned by that form, and where no form
+\* is nested in another one the form-owner reading and the literal "first among the descendants"
+\* reading designate the same elements
+HsThDefault(d) ==
+    /\ \A i \in Elems(d) : \A j \in Elems(d) :
+          (HsDefaultButton(d, i) /\ HsDefaultButton(d, j) /\ HsFormOwner(d, i) = HsFormOwner(d, j)) => i = j
+    /\ \A f \in Elems(d) : (HsIs(d, f, HsNForm) /\ HsSubmitsOf(d, f) # {}) =>
+          \E i \in HsSubmitsOf(d, f) : HsDefaultButton(d, i)
+    /\ ~HsNestedForms(d) => \A i \in Elems(d) : HsDefaultButton(d, i) = HsDefaultButtonLit(d, i)
+
+\* T-Group: the unchecked named radio buttons of one group are indeterminate together, a group
+\* never leaves its document, and a group with a checked member has no indeterminate member
+HsThGroup(d) ==
+    \A i \in Elems(d) : (HsIsRadio(d, i) /\ IsHtml(d) /\ HsVal(d, i, HsAName) # <<>>) =>
+        /\ i \in HsRadioGroup(d, i)
+        /\ \A j \in HsRadioGroup(d, i) :
+             /\ HsHost(d, j) = HsHost(d, i)
+             /\ HsRadioGroup(d, j) = HsRadioGroup(d, i)
+             /\ (~HsHas(d, i, HsAChecked) /\ ~HsHas(d, j, HsAChecked)) =>
+                    HsIndeterminate(d, i) = HsIndeterminate(d, j)
+             /\ HsHas(d, j, HsAChecked) => ~HsIndeterminate(d, i)
+
+\* T-Boundary: nothing a definition looks at lies in another document: the form owner and every
+\* fieldset / optgroup that disables i are in i's own document
+HsThBoundary(d) ==
+    \A i \in Elems(d) :
+        /\ HsFormOwner(d, i) # 0 => HsHost(d, HsFormOwner(d, i)) = HsHost(d, i)
+        /\ \A a \in HsAnc(d, i) : HsHost(d, a) = HsHost(d, i)
+        /\ HsAnc(d, i) \subseteq Anc(d, i)
 =============================================================================
